@@ -3,8 +3,8 @@
 Protocol (model name tree, see lean/PygModel/TreeDriver.lean; op `updateh` runs the heap model PygModel/TreeHeap.lean).  Trees travel as nested `(D ..)` values; the runner builds
 them in a chosen class (dict / Dict / dictattr), takes deep snapshots of both operands before a call and re-reads them
 afterwards (`mutated ...` replies), and checks `type(result)`.
-tree_to_table / table_to_tree are modelled (PygModel/TreeTable.lean, ops totable / totree) and compared on every run; their inverse law is
-NOT proved in Lean: it is checked on the implementation (laws) and on the model's outputs by correspondence only.
+tree_to_table / table_to_tree are modelled (PygModel/TreeTable.lean, ops totable / totree) and compared on every run; of their inverse law the
+completeness half is proved (table_tree_inverse_partial: every row comes back), the rest is checked on the implementation (laws) and by correspondence.
 """
 import copy as _copy
 from .. import proto
@@ -13,15 +13,16 @@ from ..engine import Finding
 
 ID = 'C15'
 TITLE = 'tree flatten/rebuild are inverse; tree_update is a non-destructive deep merge'
-LEAN_FILES = ['Basic', 'USet', 'Tree', 'TreeHeap', 'TreeTable', 'TreeDriver', 'USetLemmas', 'TreeLemmas', 'TreeMerge', 'TreeHeapLemmas', 'TreeHeapAbs', 'C15']
+LEAN_FILES = ['Basic', 'USet', 'Tree', 'TreeHeap', 'TreeTable', 'TreeDriver', 'USetLemmas', 'TreeLemmas', 'TreeMerge', 'TreeHeapLemmas', 'TreeHeapAbs', 'TreeTableLemmas', 'C15']
 RULE = 'distinct protocol lines on non-empty trees on which the implementation returned a value (or the KeyError/TypeError/ValueError the model predicts)'
 TRUSTED = ['correspondence harness (pv.engine, pv.proto), generators and deep snapshots of pv.props.c15',
            'Lean driver parser/printer (PygModel/Basic.lean, TreeDriver.lean)']
 ASSUMPTIONS = ['python dict semantics (insertion order; d[k]=v overwrites in place or appends) as DA.lookup / DA.set',
-               'the class of the tree (dict / Dict / dictattr) is not modelled: the runner checks type(result) is type(tree)',
+               'the class of the tree (dict / Dict / dictattr) is not modelled except for the dotted-path fallback of dictattr / Dict item access (Tree.getItemC): the runner checks type(result) is type(tree) and that new branches get the class of the tree',
+               'str.split(\'.\') is String.splitOn "." (string forms of tree_getitem / tree_setitem are split by the driver)',
                'leaves are None / ints / strings / lists; the ignore list holds None and strings (in_ uses eq, modelled as equality)',
                'aliasing of leaf objects between operands and result is not modelled (only dict nodes are snapshotted deeply)',
-               'tree_to_table / table_to_tree: modelled and sampled (ops totable / totree); the inverse law is an implementation-level law, not a Lean theorem; dictable(tree, pattern) not modelled']
+               'tree_to_table / table_to_tree: modelled and sampled (ops totable / totree); of the inverse law only table_tree_inverse_partial (every row is read back and comes out of tree_to_table) is a Lean theorem, that nothing else comes out is an implementation-level law; dictable(tree, pattern) not modelled']
 
 KEYS = ['a', 'b', 'c', 'd', 'a.b', 'b.a']      # dotted keys are ordinary string keys (dictattr's dotted-path fallback must not be triggered by them)
 LEAVES = [None, 0, 1, 2, 'x', 'y', [1, 2], [], 'a']
@@ -76,7 +77,7 @@ def generate(rng, tier):
         t = rand_tree(rng, rng.choice([1, 2, 3, 4]))
         T = enc(t)
         cls = rng.choice([0, 1, 2])
-        yield dict(tag='flatten', lines=['(tree items %s)' % T, '(tree keys %s)' % T, '(tree values %s)' % T])
+        yield dict(tag='flatten', lines=['(tree items %s %d)' % (T, cls), '(tree keys %s %d)' % (T, cls), '(tree values %s %d)' % (T, cls)])
         items = [tuple(p) + (_get(t, p),) for p in paths(t)]
         if rng.random() < 0.15 and items:
             items = items + [rng.choice(items)]              # duplicate path -> ValueError
@@ -93,7 +94,33 @@ def generate(rng, tier):
                 p = p + ('deeper',)                           # walks into a leaf
             elif r < 0.5 and len(p) > 1:
                 p = p[:-1]                                    # a branch
-            yield dict(tag='getitem', cls=cls, lines=['(tree get %s %s)' % (T, enc(tuple(p)))])
+            elif r < 0.6:
+                # a missing key WITH a dot: dictattr / Dict resolve it part by part (their dotted fallback), a dict raises KeyError
+                q = rng.choice(ps)
+                i = rng.randrange(len(q))
+                p = q[:i] + ('.'.join(q[i:]),) if rng.random() < 0.7 else q[:i] + ('.'.join(q[i:]) + '.zz',)
+            tag = 'getitem' if tuple(p) in ps else 'getitem-unlisted'
+            yield dict(tag=tag, lines=['(tree get %s %s %d)' % (T, enc(tuple(p)), cls)])
+            # the string form 'a.b.c' (split on dots: a key that itself contains a dot cannot be addressed this way)
+            yield dict(tag='getitem-str' + ('' if tuple(p) in ps and not any('.' in k for k in p) else '-unlisted'),
+                       lines=['(tree gets %s %s %d)' % (T, enc('.'.join(p)), cls)])
+            yield dict(tag='tree_get', lines=['(tree tget %s %s %s %d)' % (T, enc(tuple(p)), enc(rng.choice(LEAVES)), cls)])
+        # tree_setitem (in place): new paths, existing leaves, through a leaf, ignore list; tuple and string forms
+        p = rng.choice(ps)
+        r = rng.random()
+        if r < 0.3:
+            p = p[:-1] + (rng.choice(KEYS),)
+        elif r < 0.5:
+            p = p + (rng.choice(KEYS[:4]),)                   # through a leaf: the leaf is replaced by a branch
+        elif r < 0.6:
+            p = (rng.choice(KEYS), rng.choice(KEYS))
+        elif r < 0.65:
+            p = ()                                            # ValueError
+        ig = rng.choice([[], [], [None], [None, 'x']])
+        v = rng.choice(LEAVES)
+        yield dict(tag='setitem', lines=['(tree tset %s %s %s %s %d)' % (T, enc(tuple(p)), enc(v), enc(ig), cls)])
+        if p:
+            yield dict(tag='setitem-str', lines=['(tree tsets %s %s %s %s %d)' % (T, enc('.'.join(p)), enc(v), enc(ig), cls)])
     n = 1200 if tier == 'quick' else 30000
     for _ in range(n):
         t = rand_tree(rng, rng.choice([1, 2, 3]))
@@ -101,9 +128,11 @@ def generate(rng, tier):
         u = t if r < 0.08 else ({} if r < 0.12 else rand_update(rng, t))
         ig = rng.choice([[], [], [], [None], [None, 'x']])
         cls = rng.choice([0, 1, 2])
+        ucls = cls if rng.random() < 0.6 else rng.choice([0, 1, 2])      # e.g. Dict + plain dict with nested plain dicts
         tag = 'update-self' if u is t else 'update-empty' if not u else 'update-ignore' if ig else 'update'
-        yield dict(tag=tag, lines=['(tree update %s %s %s %d)' % (enc(t), enc(u), enc(ig), cls),
-                                   '(tree updateh %s %s %s %d)' % (enc(t), enc(u), enc(ig), cls)])   # the heap model
+        tag += '' if ucls == cls else '-mixed-classes'
+        yield dict(tag=tag, lines=['(tree update %s %s %s %d %d)' % (enc(t), enc(u), enc(ig), cls, ucls),
+                                   '(tree updateh %s %s %s %d %d)' % (enc(t), enc(u), enc(ig), cls, ucls)])   # the heap model
     for c in gen_table_cases(rng, tier):
         yield c
     n = 150 if tier == 'quick' else 3000
@@ -179,19 +208,46 @@ def run_line(state, sx):
     from pyg_base import tree_items, tree_keys, tree_values, items_to_tree, tree_update, tree_getitem, Dict
     op, args = sx[1], sx[2:]
     if op in ('items', 'keys', 'values'):
-        t = proto.dec(args[0])
+        t = build(proto.dec(args[0]), int(args[1]) if len(args) > 1 else 0)
+        st = snapshot(t)
         f = {'items': tree_items, 'keys': tree_keys, 'values': tree_values}[op]
-        return 'ok ' + enc(f(t))
+        res = f(t)
+        if snapshot(t) != st:
+            return 'mutated tree: %s' % enc(_plain(t))
+        return 'ok ' + enc(res)
     if op == 'fromitems':
         items = proto.dec(args[0])
         res = items_to_tree(items)
         return 'ok ' + enc(_plain(res))
-    if op == 'get':
-        t = proto.dec(args[0])
-        return 'ok ' + enc(_plain(tree_getitem(t, list(proto.dec(args[1])))))
+    if op in ('get', 'gets', 'tget'):
+        from pyg_base import tree_get
+        cls = int(args[-1]) if len(args) > (3 if op == 'tget' else 2) else 0
+        t = build(proto.dec(args[0]), cls)
+        st = snapshot(t)
+        p = proto.dec(args[1])
+        p = list(p) if op != 'gets' else p
+        try:
+            res = tree_get(t, p, proto.dec(args[2])) if op == 'tget' else tree_getitem(t, p)
+        finally:
+            if snapshot(t) != st:
+                return 'mutated tree: %s' % enc(_plain(t))
+        return 'ok ' + enc(_plain(res))
+    if op in ('tset', 'tsets'):
+        from pyg_base import tree_setitem
+        cls = int(args[4]) if len(args) > 4 else 0
+        t = build(proto.dec(args[0]), cls)
+        p = proto.dec(args[1])
+        res = tree_setitem(t, p, proto.dec(args[2]), ignore=proto.dec(args[3]))
+        if res is not None:
+            return 'wrongtype %s' % type(res).__name__
+        bad = _classes(t, type(t))
+        if bad:
+            return 'wrongtype %s inside the tree' % bad
+        return 'ok ' + enc(_plain(t))
     if op in ('update', 'updateh'):       # updateh: same call; the model side runs the heap machine
         cls = int(args[3]) if len(args) > 3 else 0
-        t, u, ig = build(proto.dec(args[0]), cls), build(proto.dec(args[1]), cls), proto.dec(args[2])
+        ucls = int(args[4]) if len(args) > 4 else cls
+        t, u, ig = build(proto.dec(args[0]), cls), build(proto.dec(args[1]), ucls), proto.dec(args[2])
         st, su = snapshot(t), snapshot(u)
         res = tree_update(t, u, ignore=ig) if ig else tree_update(t, u)
         if snapshot(t) != st:
@@ -221,6 +277,18 @@ def run_line(state, sx):
         pat, rows = proto.dec(args[0]), proto.dec(args[1])
         return 'ok ' + enc(_plain(table_to_tree(None, pat, rows)))
     return 'bad-op'
+
+
+def _classes(x, c):
+    """new branches are created with the class of the tree (`base = type(tree)`)"""
+    if isinstance(x, dict):
+        if type(x) is not c:
+            return type(x).__name__
+        for v in x.values():
+            b = _classes(v, c)
+            if b:
+                return b
+    return None
 
 
 def _plain(x):
@@ -316,34 +384,44 @@ def laws(rng, tier, ctx):
             yield Finding('violation', case, 'tree_update returned a %s for a %s' % (type(res).__name__, type(t).__name__))
         if not idem:
             yield Finding('violation', dict(tag='law-update-idem', lines=['(tree update %s %s (L) %d)' % (T, T, cls)]), 'tree_update(t, t) != t or tree_update(t, {}) != t')
-    # tree_to_table / table_to_tree inverse on rows with unique paths, patterns with 1..4 wildcards
-    m = 200 if tier == 'quick' else 5000
+    # table_to_tree / tree_to_table with the same pattern are inverse on rows with unique paths: patterns with 1..4 wildcards and
+    # literal segments in any position (at least two segments: a one-segment pattern has no place for a leaf), both directions
+    from pyg_base._table_to_tree import table_to_tree
+    m = 300 if tier == 'quick' else 8000
     for _ in range(m):
         w = rng.choice([1, 2, 3, 4])
-        names = ['k%d' % i for i in range(w)]
+        segs = ['%%k%d' % i for i in range(w)]
+        for _ in range(rng.choice([0, 0, 1, 2]) if w > 1 else rng.choice([1, 1, 2])):
+            segs.insert(rng.randrange(len(segs) + 1), rng.choice(['lit', 'x', 'p', 'a.b']))
+        pattern = '/'.join(segs)
+        names = [sg[1:] for sg in segs if sg.startswith('%')]
+        last_wild = segs[-1].startswith('%')
         rows, seen = [], set()
-        for _ in range(rng.choice([1, 2, 3, 5])):
-            row = tuple(rng.choice(['p', 'q', 'r']) for _ in range(w - 1)) + (rng.choice(['p', 'q', 'r', 1, 2]),)
-            if row[:-1] not in seen:
-                seen.add(row[:-1])
-                rows.append(row)
-        pattern = '/'.join('%' + n for n in names)
-        tree = items_to_tree(rows) if w > 1 else None
-        if tree is None:
-            continue
-        count += 1
-        case = dict(tag='law-table-tree-%d' % w, lines=['(tree fromitems %s)' % enc(rows)])
+        for _ in range(rng.choice([1, 2, 3, 5, 8])):
+            row = {n: rng.choice(['p', 'q', 'r', 'lit']) for n in names}
+            if last_wild:
+                row[names[-1]] = rng.choice(['p', 'q', 1, 2, None, [1, 2], 'lit'])
+            path = tuple(row[sg[1:]] if sg.startswith('%') else sg for sg in segs[:-1])
+            if path not in seen:
+                seen.add(path)
+                items = list(row.items())
+                rng.shuffle(items)                     # the order of the columns in a row is immaterial
+                rows.append(dict(items))
+        count += 2
+        case = dict(tag='law-table-tree-%d' % w, lines=['(tree totree %s %s)' % (enc(pattern), enc(rows))])
         try:
+            tree = table_to_tree(None, pattern, _copy.deepcopy(rows))
             table = tree_to_table(tree, pattern)
-            got = sorted(tuple(r[n] for n in names) for r in table) if all(isinstance(r[names[-1]], str) for r in table) else \
-                sorted((tuple(r[n] for n in names) for r in table), key=repr)
-            want = sorted(rows) if all(isinstance(r[-1], str) for r in rows) else sorted(rows, key=repr)
-            back = pyg_base.dictable(table).table_to_tree if False else None
+            back = table_to_tree(None, pattern, table)
         except Exception as e:
-            yield Finding('violation', case, 'tree_to_table raised %s' % type(e).__name__)
+            yield Finding('violation', case, 'table_to_tree / tree_to_table raised %s on rows with unique paths' % type(e).__name__)
             continue
-        if got != want:
-            yield Finding('violation', case, 'tree_to_table(items_to_tree(rows), %s) does not give the rows back' % pattern)
+        key = lambda r: repr(sorted(r.items()))
+        if sorted(map(key, table)) != sorted(map(key, rows)):
+            yield Finding('violation', case, 'tree_to_table(table_to_tree(rows, P), P) = %s does not give the rows %s back (pattern %s)' % (enc(table), enc(rows), pattern))
+        if _plain(back) != _plain(tree) or list(paths(_plain(back))) != list(paths(_plain(tree))):
+            yield Finding('violation', dict(tag='law-tree-table-%d' % w, lines=['(tree totable %s %s)' % (enc(_plain(tree)), enc(pattern))]),
+                          'table_to_tree(tree_to_table(t, P), P) != t for a tree all of whose items match P (pattern %s)' % pattern)
     yield count
 
 
